@@ -190,12 +190,36 @@ BINFMT = {"plus": "%s plus %s", "minus": "%s minus %s", "mal": "%s mal %s", "dur
 UNFMT = {"neg": "-%s", "abs": "der Betrag von %s", "not": "nicht %s", "lnot": "logisch nicht %s", "len": "die Länge von %s"}
 
 
+# functions with an alias of their own (instead of "<name> <p1> <p2> ..."): base name -> alias text with {name}, <param> placeholders and
+# at most one negation marker <!word>; specialised copies "<base>__<types>" share the entry of their base
+ALIAS_FORMS = {}
+
+
+def alias_base(name):
+    return name.split("__")[0]
+
+
+def alias_text(name):
+    return ALIAS_FORMS[alias_base(name)].replace("{name}", name)
+
+
+def alias_call(e, negated):
+    import re as _re
+    text = alias_text(e["f"])
+    text = _re.sub(r"<!(\w+)>", (lambda m: m.group(1)) if negated else "", text)
+    for a in e["args"]:
+        text = text.replace("<%s>" % a["p"], rarg(a["e"]))
+    return " ".join(text.split())
+
+
 def rexpr(e):
     k = e["k"]
     if k == "lit":
         return rvalue(e["v"])
     if k == "id":
         return e["n"]
+    if k == "un" and e["op"] == "not" and e.get("via_alias") and e["r"]["k"] == "call":      # the negated form of an alias with a <!...> marker
+        return "(" + alias_call(e["r"], True) + ")"
     if k == "un":
         return "(" + UNFMT[e["op"]] % rexpr(e["r"]) + ")"
     if k == "bin":
@@ -216,6 +240,8 @@ def rexpr(e):
             return "(eine leere %s)" % tname(TL(e["et"]))
         return "(eine Liste, die aus %s besteht)" % ", ".join(rexpr(x) for x in e["vals"])
     if k == "call":
+        if alias_base(e["f"]) in ALIAS_FORMS:
+            return "(" + alias_call(e, False) + ")"
         return "(" + " ".join([e["f"]] + [rarg(a["e"]) for a in e["args"]]) + ")"
     if k == "new":
         parts = ["%s gleich %s" % (a["p"], rarg(a["e"])) for a in e["args"]]
@@ -416,7 +442,7 @@ def rfuncs(funcs, extern_funcs=(), public=False):
             lines.append(head)
             lines += rstmts(fd["body"], 1)
         lines.append("Und kann so benutzt werden:")
-        lines.append('\t"%s"' % " ".join([fd["n"]] + ["<%s>" % p["n"] for p in ps]))
+        lines.append('\t"%s"' % (alias_text(fd["n"]) if alias_base(fd["n"]) in ALIAS_FORMS else " ".join([fd["n"]] + ["<%s>" % p["n"] for p in ps])))
         lines.append("")
     return lines + deferred
 
@@ -487,7 +513,7 @@ def render(P, extern_funcs=()):
             lines.append(head)
             lines += rstmts(fd["body"], 1)
         lines.append("Und kann so benutzt werden:")
-        lines.append('\t"%s"' % " ".join([fd["n"]] + ["<%s>" % p["n"] for p in ps]))
+        lines.append('\t"%s"' % (alias_text(fd["n"]) if alias_base(fd["n"]) in ALIAS_FORMS else " ".join([fd["n"]] + ["<%s>" % p["n"] for p in ps])))
         lines.append("")
     lines += rstmts(P["main"][n:], 0)
     lines += deferred
